@@ -21,7 +21,7 @@ KINDS = ["replace", "replace_with", "insert", "delete", "delete_range", "replace
 
 
 def cases(tier):
-    return 900 if tier == "quick" else 40000
+    return 5000 if tier == "quick" else 150000
 
 
 def floors(tier):
